@@ -29,6 +29,11 @@ pub enum HiddenKind {
     RetargetedToHidden,
     /// a live member of a visible MultiProgress given a hidden target of its own
     MemberRetargetedToHidden,
+    /// a member of a HIDDEN MultiProgress given a hidden target of its own; afterwards the MultiProgress
+    /// receives a terminal: the bar no longer belongs to it and must stay silent
+    HiddenMemberRetargetedThenMultiRevealed,
+    /// the same, the bar having been handed to a second hidden MultiProgress instead
+    HiddenMemberMovedThenMultiRevealed,
     // child process only:
     StderrNotTty,
     StdoutNotTty,
@@ -46,6 +51,8 @@ impl HiddenKind {
             HiddenKind::MovedToHiddenMulti => "moved-to-hidden-multi",
             HiddenKind::RetargetedToHidden => "retargeted-to-hidden",
             HiddenKind::MemberRetargetedToHidden => "member-retargeted-to-hidden",
+            HiddenKind::HiddenMemberRetargetedThenMultiRevealed => "hidden-member-retargeted-then-multi-revealed",
+            HiddenKind::HiddenMemberMovedThenMultiRevealed => "hidden-member-moved-then-multi-revealed",
             HiddenKind::StderrNotTty => "stderr-not-a-tty",
             HiddenKind::StdoutNotTty => "stdout-not-a-tty",
             HiddenKind::StderrHzNotTty => "stderr-with-hz-not-a-tty",
@@ -108,6 +115,22 @@ fn make_pair(kind: HiddenKind, len: Option<u64>, fin: &ProgressFinish) -> Pair {
                 pb.set_draw_target(ProgressDrawTarget::hidden());
             }
             std::mem::forget(other);
+            (pb, Some(spy), Some(mp))
+        }
+        HiddenKind::HiddenMemberRetargetedThenMultiRevealed | HiddenKind::HiddenMemberMovedThenMultiRevealed => {
+            let spy = SpyTerm::new(80, 30, false);
+            spy.state().snap_on_flush = false;
+            let mp = MultiProgress::with_draw_target(ProgressDrawTarget::hidden());
+            let pb = mp.add(mk(ProgressDrawTarget::hidden()));
+            pb.tick();
+            if kind == HiddenKind::HiddenMemberRetargetedThenMultiRevealed {
+                pb.set_draw_target(ProgressDrawTarget::hidden());
+            } else {
+                let hidden_mp = MultiProgress::with_draw_target(ProgressDrawTarget::hidden());
+                let _ = hidden_mp.add(pb.clone());
+                std::mem::forget(hidden_mp);
+            }
+            mp.set_draw_target(ProgressDrawTarget::term_like(spy.boxed()));
             (pb, Some(spy), Some(mp))
         }
         HiddenKind::RetargetedToHidden => {
@@ -277,7 +300,7 @@ fn one_history(kind: HiddenKind, rng: &mut Rng, replay: &str) -> (Verdict, u64, 
 
 fn inproc_case(seed: u64, idx: u64) -> CaseOut {
     let mut rng = Rng::derive(seed, 6, idx);
-    let kind = [HiddenKind::HiddenTarget, HiddenKind::HiddenMulti, HiddenKind::RemovedFromMulti, HiddenKind::MovedToHiddenMulti, HiddenKind::RetargetedToHidden, HiddenKind::MemberRetargetedToHidden][(idx % 6) as usize];
+    let kind = [HiddenKind::HiddenTarget, HiddenKind::HiddenMulti, HiddenKind::RemovedFromMulti, HiddenKind::MovedToHiddenMulti, HiddenKind::RetargetedToHidden, HiddenKind::MemberRetargetedToHidden, HiddenKind::HiddenMemberRetargetedThenMultiRevealed, HiddenKind::HiddenMemberMovedThenMultiRevealed][(idx % 8) as usize];
     let (v, ops, history) = one_history(kind, &mut rng, &format!("i{seed}:{idx}"));
     let mut co = CaseOut::held(fnv1a(format!("{kind:?}{history:?}").as_bytes()), ops >= 2);
     co.verdict = v;
